@@ -251,6 +251,12 @@ static int disasm_pop(
     snprintf(instruction, length, "%s", table_unsp[n].instr);
   }
     else
+  if (operand_a + opn > 7)
+  {
+    // Would pop registers past pc (r7).
+    snprintf(instruction, length, "???");
+  }
+    else
   if (opn == 1)
   {
     snprintf(instruction, length, "%s %s, [%s]",
